@@ -112,23 +112,23 @@ func extLexProject(lx *s2.VerifSeqLexicon, st [][]int32) (what, detail string) {
 }
 
 // extAddClass names the way an add reply differs from the model's.  before = model content before
-// the call, x = the sequence added, fam = the argument family of the behaviour.
+// the call, x = the sequence added.
 // A new sequence that receives the id of a stored one is classified by whether the two have the
 // same 32-bit Adler checksum of their little-endian bytes (classification only: it separates
 // "two sequences are identified because a 32-bit checksum is the only thing compared" from any
 // other way of confusing sequences).
-func extAddClass(got, want int64, before [][]int32, x []int32, fam string) string {
+func extAddClass(got, want int64, before [][]int32, x []int32) string {
 	n := int64(len(before))
 	switch {
 	case want == n && got >= 0 && got < n:
 		if extAdler(before[got]) == extAdler(x) {
 			return "new-sequence-got-existing-id/equal-adler32"
 		}
-		return "new-sequence-got-existing-id/distinct-adler32/" + fam
+		return "new-sequence-got-existing-id/distinct-adler32"
 	case want < n:
-		return "present-sequence-got-other-id/" + fam
+		return "present-sequence-got-other-id"
 	}
-	return "new-sequence-got-bad-id/" + fam
+	return "new-sequence-got-bad-id"
 }
 
 func extAdler(s []int32) uint32 {
@@ -170,22 +170,22 @@ func opExtLexSeq(raw json.RawMessage, o *Out) {
 			got := int64(lx.Add(in))
 			o.Count("lexicon_seq_adds")
 			if !extI32Eq(in, s.X) {
-				o.Fail("lexicon/seq/Add/argument-modified/"+c.Fam, "add(%v) changed its argument to %v [%s]", s.X, in, hist)
+				o.Fail("lexicon/seq/Add/argument-modified", "add(%v) changed its argument to %v [%s]", s.X, in, hist)
 				failed = true
 			} else if got != s.R {
-				o.Fail("lexicon/seq/Add/"+extAddClass(got, s.R, before, s.X, c.Fam), "add(%v) = %d, model %d (content before the call: %v) [%s]", s.X, got, s.R, before, hist)
+				o.Fail("lexicon/seq/Add/"+extAddClass(got, s.R, before, s.X), "add(%v) = %d, model %d (content before the call: %v) [%s]", s.X, got, s.R, before, hist)
 				failed = true
 			}
 		case "Clear":
 			lx.Clear()
 		case "Sequence":
 			if got := lx.Sequence(s.K); !extI32Eq(got, s.Rs) {
-				o.Fail("lexicon/seq/Sequence/"+c.Fam, "sequence(%d) = %v, model %v [%s]", s.K, got, s.Rs, hist)
+				o.Fail("lexicon/seq/Sequence", "sequence(%d) = %v, model %v [%s]", s.K, got, s.Rs, hist)
 				failed = true
 			}
 		case "Size":
 			if got := int64(lx.Size()); got != s.R {
-				o.Fail("lexicon/seq/Size/"+c.Fam, "size() = %d, model %d [%s]", got, s.R, hist)
+				o.Fail("lexicon/seq/Size", "size() = %d, model %d [%s]", got, s.R, hist)
 				failed = true
 			}
 		default:
@@ -195,7 +195,7 @@ func opExtLexSeq(raw json.RawMessage, o *Out) {
 			break
 		}
 		if what, detail := extLexProject(lx, s.St); what != "" {
-			o.Fail("lexicon/seq/state/"+what+"/after-"+s.A+"/"+c.Fam, "%s [%s]", detail, hist)
+			o.Fail("lexicon/seq/state/"+what+"/after-"+s.A, "%s [%s]", detail, hist)
 			break
 		}
 		_ = n
@@ -234,24 +234,24 @@ func opExtLexIDSet(raw json.RawMessage, o *Out) {
 			card := len(extUnique(s.X))
 			switch {
 			case !extI32Eq(in, s.X):
-				o.Fail("lexicon/idset/Add/argument-modified/"+c.Fam, "add(%v) changed its argument to %v [%s]", s.X, in, hist)
+				o.Fail("lexicon/idset/Add/argument-modified", "add(%v) changed its argument to %v [%s]", s.X, in, hist)
 				failed = true
 			case got == s.R:
 			case card == 0:
-				o.Fail("lexicon/idset/Add/empty/"+c.Fam, "add() = %d, model emptySetID %d [%s]", got, s.R, hist)
+				o.Fail("lexicon/idset/Add/empty", "add() = %d, model emptySetID %d [%s]", got, s.R, hist)
 				failed = true
 			case card == 1 && len(s.X) > 1:
 				o.Fail("lexicon/idset/Add/singleton-with-duplicates", "add(%v) = %d: the set is the singleton {%d}, whose documented id is its element %d [%s]", s.X, got, s.R, s.R, hist)
 				failed = true
 			case card == 1:
-				o.Fail("lexicon/idset/Add/singleton/"+c.Fam, "add(%v) = %d, model %d [%s]", s.X, got, s.R, hist)
+				o.Fail("lexicon/idset/Add/singleton", "add(%v) = %d, model %d [%s]", s.X, got, s.R, hist)
 				failed = true
 			case got >= 0 || got == math.MinInt32:
-				o.Fail("lexicon/idset/Add/set-got-implicit-id/"+c.Fam, "add(%v) = %d for a set of %d elements, model %d [%s]", s.X, got, card, s.R, hist)
+				o.Fail("lexicon/idset/Add/set-got-implicit-id", "add(%v) = %d for a set of %d elements, model %d [%s]", s.X, got, card, s.R, hist)
 				failed = true
 			default:
 				// both are complements of sequence ids
-				o.Fail("lexicon/idset/Add/"+extAddClass(^got, ^s.R, before, extSorted(s.X), c.Fam), "add(%v) = %d (= ^%d), model %d (= ^%d; sets stored before the call: %v) [%s]", s.X, got, ^got, s.R, ^s.R, before, hist)
+				o.Fail("lexicon/idset/Add/"+extAddClass(^got, ^s.R, before, extSorted(s.X)), "add(%v) = %d (= ^%d), model %d (= ^%d; sets stored before the call: %v) [%s]", s.X, got, ^got, s.R, ^s.R, before, hist)
 				failed = true
 			}
 		case "Clear":
@@ -259,7 +259,7 @@ func opExtLexIDSet(raw json.RawMessage, o *Out) {
 		case "IDSet":
 			got := lx.IDSet(s.K)
 			if !extI32Eq(got, s.Rs) {
-				o.Fail("lexicon/idset/IDSet/"+c.Fam, "idSet(%d) = %v, model %v [%s]", s.K, got, s.Rs, hist)
+				o.Fail("lexicon/idset/IDSet", "idSet(%d) = %v, model %v [%s]", s.K, got, s.Rs, hist)
 				failed = true
 			}
 		default:
@@ -269,7 +269,7 @@ func opExtLexIDSet(raw json.RawMessage, o *Out) {
 			break
 		}
 		if what, detail := extLexProject(lx.Inner(), s.St); what != "" {
-			o.Fail("lexicon/idset/state/"+what+"/after-"+s.A+"/"+c.Fam, "stored sets: %s [%s]", detail, hist)
+			o.Fail("lexicon/idset/state/"+what+"/after-"+s.A, "stored sets: %s [%s]", detail, hist)
 			break
 		}
 		before = s.St
@@ -555,23 +555,23 @@ func opExtPaddedCell(raw json.RawMessage, o *Out) {
 		st := s2.VerifPaddedCellStateOf(pc)
 		// ---- private coordinates against the model
 		if st.Level != c.Level || pc.Level() != c.Level {
-			o.Fail("paddedcell/state/level/"+pcls, "level %d / Level() %d, model %d: %s", st.Level, pc.Level(), c.Level, pd)
+			o.Fail("paddedcell/state/level/"+cls, "level %d / Level() %d, model %d: %s", st.Level, pc.Level(), c.Level, pd)
 		}
 		if st.ILo != c.ILo || st.JLo != c.JLo {
-			o.Fail("paddedcell/state/ijlo/"+pcls, "(iLo, jLo) = (%d, %d), model (%d, %d): %s", st.ILo, st.JLo, c.ILo, c.JLo, pd)
+			o.Fail("paddedcell/state/ijlo/"+cls, "(iLo, jLo) = (%d, %d), model (%d, %d): %s", st.ILo, st.JLo, c.ILo, c.JLo, pd)
 		}
 		if st.Orientation != c.O {
-			o.Fail("paddedcell/state/orientation/"+pcls, "orientation %d, model %d: %s", st.Orientation, c.O, pd)
+			o.Fail("paddedcell/state/orientation/"+cls, "orientation %d, model %d: %s", st.Orientation, c.O, pd)
 		}
 		if pc.CellID() != id || pc.Padding() != pad {
-			o.Fail("paddedcell/accessors/"+pcls, "CellID() = %s Padding() = %g: %s", extName(pc.CellID()), pc.Padding(), pd)
+			o.Fail("paddedcell/accessors/"+cls, "CellID() = %s Padding() = %g: %s", extName(pc.CellID()), pc.Padding(), pd)
 		}
 		// ---- where the curve enters and leaves
 		if got, want := pc.EntryVertex(), cell.Vertex(extCorner(c.Entry)); got != want {
-			o.Fail("paddedcell/EntryVertex/"+pcls, "EntryVertex() = %v, model corner %v = %v: %s", got, c.Entry, want, pd)
+			o.Fail("paddedcell/EntryVertex/"+cls, "EntryVertex() = %v, model corner %v = %v: %s", got, c.Entry, want, pd)
 		}
 		if got, want := pc.ExitVertex(), cell.Vertex(extCorner(c.Exit)); got != want {
-			o.Fail("paddedcell/ExitVertex/"+pcls, "ExitVertex() = %v, model corner %v = %v: %s", got, c.Exit, want, pd)
+			o.Fail("paddedcell/ExitVertex/"+cls, "ExitVertex() = %v, model corner %v = %v: %s", got, c.Exit, want, pd)
 		}
 		// ---- walking down from the root through PaddedCellFromParentIJ reaches the same value
 		walk := s2.PaddedCellFromCellID(rootID, pad)
@@ -580,9 +580,9 @@ func opExtPaddedCell(raw json.RawMessage, o *Out) {
 			walk = s2.PaddedCellFromParentIJ(walk, i, j)
 		}
 		if a, b := extPStateOf(walk), extPStateOf(pc); a != b {
-			o.Fail("paddedcell/descend/"+pcls, "the cell reached from the root %s by ChildIJ/PaddedCellFromParentIJ along %v is %+v, PaddedCellFromCellID gives %+v: %s", extName(rootID), c.Q, a, b, pd)
+			o.Fail("paddedcell/descend/"+cls, "the cell reached from the root %s by ChildIJ/PaddedCellFromParentIJ along %v is %+v, PaddedCellFromCellID gives %+v: %s", extName(rootID), c.Q, a, b, pd)
 		} else if c.Level < 30 && walk.Middle() != pc.Middle() {
-			o.Fail("paddedcell/descend/middle/"+pcls, "Middle() %v after the descent, %v from the id: %s", walk.Middle(), pc.Middle(), pd)
+			o.Fail("paddedcell/descend/middle/"+cls, "Middle() %v after the descent, %v from the id: %s", walk.Middle(), pc.Middle(), pd)
 		}
 		o.Count("paddedcell_cells")
 		if c.Level == 30 {
@@ -599,17 +599,17 @@ func opExtPaddedCell(raw json.RawMessage, o *Out) {
 			common.Y.Lo, common.Y.Hi = math.Max(common.Y.Lo, b.Y.Lo), math.Min(common.Y.Hi, b.Y.Hi)
 			qd := c.Quad[pos]
 			if i, j := pc.ChildIJ(pos); i != qd[0] || j != qd[1] {
-				o.Fail("paddedcell/ChildIJ/"+pcls, "ChildIJ(%d) = (%d,%d), model %v: %s", pos, i, j, qd, pd)
+				o.Fail("paddedcell/ChildIJ/"+cls, "ChildIJ(%d) = (%d,%d), model %v: %s", pos, i, j, qd, pd)
 			}
 			sub := s2.PaddedCellFromParentIJ(pc, qd[0], qd[1])
 			if sub.CellID() != kid {
-				o.Fail("paddedcell/FromParentIJ/id/"+pcls, "PaddedCellFromParentIJ(%v).CellID() = %s, the child in that quadrant is number %d = %s: %s", qd, extName(sub.CellID()), pos, extName(kid), pd)
+				o.Fail("paddedcell/FromParentIJ/id/"+cls, "PaddedCellFromParentIJ(%v).CellID() = %s, the child in that quadrant is number %d = %s: %s", qd, extName(sub.CellID()), pos, extName(kid), pd)
 				continue
 			}
 			if a, b := extPStateOf(sub), extPStateOf(kids[pos]); a != b {
-				o.Fail("paddedcell/FromParentIJ/fields/"+pcls, "child %d from the parent %+v, from its id %+v: %s", pos, a, b, pd)
+				o.Fail("paddedcell/FromParentIJ/fields/"+cls, "child %d from the parent %+v, from its id %+v: %s", pos, a, b, pd)
 			} else if c.Level+1 < 30 && sub.Middle() != kids[pos].Middle() {
-				o.Fail("paddedcell/FromParentIJ/middle/"+pcls, "child %d: Middle() %v from the parent, %v from its id: %s", pos, sub.Middle(), kids[pos].Middle(), pd)
+				o.Fail("paddedcell/FromParentIJ/middle/"+cls, "child %d: Middle() %v from the parent, %v from its id: %s", pos, sub.Middle(), kids[pos].Middle(), pd)
 			}
 		}
 		// Middle(): exactly the points that belong to all four padded children
